@@ -146,3 +146,43 @@ def general_cluster(kind):
                       ["hms", 6, 6, 18], ["hmsf", 6, 6, 17, 0.5]):
                 out.append((_desc(c, rep, dn, t, z), None, False))
     return out
+
+
+# ------------------------------------------------------------------------------------------------
+# noise sweep: two spellings of ONE instant whose decimal part is not a binary fraction
+# ------------------------------------------------------------------------------------------------
+NOISE_HOURS = (0, 8, 22)
+NOISE_HOUR_OFFSETS = ((-10, 0), (3, 0), (14, 0))
+NOISE_MINUTES = ((8, 0), (8, 19), (23, 59))
+NOISE_MINUTE_OFFSETS = ((5, 45), (0, -30), (-9, -30))
+
+
+def noise_pairs(part=None):
+    """(x, y) descriptor pairs at exactly the same instant: every hundredth of an hour (of a minute) as a decimal-hour
+    (decimal-minute) form in UTC, and the same civil time shifted by a whole-hour (whole-minute) offset, so that both
+    spellings carry the same decimal digits. Float re-zoning of one into the other's offset is where the noise is."""
+    c = M.cal("greg")
+    dn0 = c.dn_from_cal(2000, 6, 15)
+    out = []
+    for hi, h in enumerate(NOISE_HOURS):
+        if part is not None and part != hi:
+            continue
+        for cc in range(1, 100):
+            fr = cc / 100.0
+            x = {"rep": "cal", "f": list(c.cal_from_dn(dn0)), "t": ["hf", h, fr], "tz": [0, 0]}
+            for (oh, om) in NOISE_HOUR_OFFSETS:
+                d, h2 = divmod(h + oh, 24)
+                y = {"rep": "cal", "f": list(c.cal_from_dn(dn0 + d)), "t": ["hf", h2, fr], "tz": [oh, om]}
+                out.append((x, y))
+    for mi, (h, m) in enumerate(NOISE_MINUTES):
+        if part is not None and part != mi:
+            continue
+        for cc in range(1, 100):
+            fr = cc / 100.0
+            x = {"rep": "ord", "f": list(c.ord_from_dn(dn0)), "t": ["hmf", h, m, fr], "tz": [0, 0]}
+            for (oh, om) in NOISE_MINUTE_OFFSETS:
+                tot = h * 60 + m + oh * 60 + om
+                d, rem = divmod(tot, 1440)
+                y = {"rep": "week", "f": list(c.week_from_dn(dn0 + d)), "t": ["hmf", rem // 60, rem % 60, fr], "tz": [oh, om]}
+                out.append((x, y))
+    return out
